@@ -831,6 +831,10 @@ pub fn build(spec: &Spec) -> Built {
             if spec.variant == 1 {
                 m.set_row_hidden(0, 4, true).expect("hidden");
             }
+            if spec.variant == 2 {
+                // a hidden line of the OTHER axis with an index inside the landing zones: must not matter
+                m.set_column_hidden(0, 2, true).expect("hidden");
+            }
         }
         Axis::Cols => {
             // a multi-column descriptor 2..3 (as imported files have), written through the public field
@@ -846,6 +850,9 @@ pub fn build(spec: &Spec) -> Built {
             m.set_row_height(0, 1, 31.0).expect("height");
             if spec.variant == 1 {
                 m.set_column_hidden(0, 4, true).expect("hidden");
+            }
+            if spec.variant == 2 {
+                m.set_row_hidden(0, 2, true).expect("hidden");
             }
         }
     }
